@@ -46,6 +46,15 @@ def enumerate_cases(tier: str, seed: int) -> list[dict[str, Any]]:
         cases += sentinels.cases("C03", tier, seed)
     except ImportError:
         pass
+    from checks import c04, c06
+    from vlib import fnmods7
+
+    for name in c06._family():
+        cases.append({"key": f"cf:{name}", "src": "other", "family": "cf", "name": name, "cost": 0.5})
+    for name in fnmods7.programs(True):
+        cases.append({"key": f"fn:{name}", "src": "other", "family": "fn", "name": name, "cost": 0.5})
+    for name in c04._shape_programs():
+        cases.append({"key": f"shape:{name}", "src": "other", "family": "shape", "name": name, "cost": 0.5})
     return recs.only_filter(cases)
 
 
@@ -64,7 +73,11 @@ def _export(prog: programs.Program, cfg: str) -> Any:
 
 
 def run_case(case: dict[str, Any], tier: str, seed: int) -> dict[str, Any]:
-    if case["src"] == "registry":
+    if case["src"] == "other":
+        from checks import c08
+
+        prog, _ = c08._prog_for({"src": {"cf": "cf", "fn": "fn", "shape": "shape"}[case["family"]], "name": case["name"], "key": case["key"]})
+    elif case["src"] == "registry":
         prog = programs.from_registry(registry.by_pid(case["pid"]))
     elif case["src"] == "sentinel":
         from vlib import sentinels
